@@ -117,17 +117,24 @@ def Path.matches (q : Path) (w : Word) (o : Opts) : Bool :=
 
 /-! ## Well-formedness (decidable; checked on the generated data by `decide`) -/
 
-/-- what may follow an if-chain inside a block: nothing, or the function's final `return IdentifierToken` -/
+/-- what may follow an if-chain inside a block: nothing, the function's final `return IdentifierToken`,
+or another if-chain (two consecutive `if` statements) -/
 def tailOK : Block → Bool
   | .nil => true
   | .ret k => k == Kind.IdentifierToken
-  | .chain _ _ => false
+  | .chain _ _ => true
 
-/-- all branches of a chain test position `p`, and none tests a character in `seen` -/
 def brsHeads : Branches → List (Nat × Nat)
   | .nil => []
   | .cons p c _ _ rest => (p, c) :: brsHeads rest
 
+/-- the (position, character) heads of the chains that follow in the same block -/
+def restHeads : Block → List (Nat × Nat)
+  | .nil => []
+  | .ret _ => []
+  | .chain brs rest => brsHeads brs ++ restHeads rest
+
+/-- all heads test the same position, for pairwise different characters (no sibling can shadow another) -/
 def headsOK : List (Nat × Nat) → Bool
   | [] => true
   | (p, c) :: t => t.all (fun x => x.1 == p && x.2 != c) && headsOK t
@@ -136,7 +143,7 @@ mutual
 def wf : Block → Bool
   | .nil => true
   | .ret _ => true
-  | .chain brs rest => wfBrs brs && headsOK (brsHeads brs) && tailOK rest
+  | .chain brs rest => wfBrs brs && headsOK (brsHeads brs ++ restHeads rest) && tailOK rest && wf rest
 def wfBrs : Branches → Bool
   | .nil => true
   | .cons _ _ _ body rest => wf body && wfBrs rest
